@@ -12,6 +12,15 @@ Core Lean only.  The definitions are part of the trusted base of the source tie;
 `harness/py2lean_selftest.py` compares them (through the generated definitions)
 with CPython.
 -/
+/-- Python exceptions as values (raising mode of the translator, notes/SRCTIE.md "Exceptions").
+    Only the class is modelled, never the message.  `RecursionError`: the fuel of a recursive method ran out. -/
+inductive PyExc where
+  | KeyError | ValueError | TypeError | IndexError | ZeroDivisionError | StopIteration | RecursionError | Other
+  /-- not a Python exception: a `while` loop did not finish within the fuel it was given (no handler catches
+      it); tie theorems show that it does not occur for the fuel they state -/
+  | OutOfFuel
+deriving DecidableEq, Repr
+
 namespace PyRt
 
 /-! ## integers -/
@@ -73,5 +82,188 @@ def append {α : Type} (l : List α) (x : α) : List α := l ++ [x]
 
 /-- `x in l` -/
 def contains {α : Type} [DecidableEq α] (l : List α) (x : α) : Bool := l.any (fun y => decide (x = y))
+
+/-- `enumerate(l, start)` as a list of pairs -/
+def enumerate {α : Type} : List α → Int → List (Int × α)
+  | [], _ => []
+  | x :: xs, i => (i, x) :: enumerate xs (i + 1)
+
+/-- `sum(l)` of ints (Python starts from `0` and adds left to right) -/
+def sum (l : List Int) : Int := l.foldl (· + ·) 0
+
+/-- a narrowed read of a variable that may be `None`: the translator emits it only where its flow
+    analysis shows the variable is not `None` (after `x is not None` / `x is None or …` / an early exit) -/
+def unwrap {α : Type} [Inhabited α] (o : Option α) : α := o.getD default
+
+/-- stable insertion used by `sorted` (`x` stood BEFORE the items of the list in the original order): `x`
+    goes before the first `y` that may not precede it (`reverse = false`: first `y` with `key x ≤ key y`;
+    `reverse = true`: first `y` with `key y ≤ key x`), so items with equal keys keep their original order
+    in both directions, as in Python -/
+def insSorted {α : Type} (key : α → Int) (reverse : Bool) (x : α) : List α → List α
+  | [] => [x]
+  | y :: ys =>
+    if (if reverse then key y ≤ key x else key x ≤ key y) then x :: y :: ys
+    else y :: insSorted key reverse x ys
+
+/-- `sorted(l, key=key, reverse=reverse)` (stable) -/
+def sorted {α : Type} (key : α → Int) (reverse : Bool) (l : List α) : List α :=
+  l.foldr (fun x acc => insSorted key reverse x acc) []
+
+/-! ## raising twins of the partial operations (raising mode) -/
+
+/-- `a // b`, `ZeroDivisionError` for `b = 0` -/
+def floordiv? (a b : Int) : Except PyExc Int :=
+  if b = 0 then .error PyExc.ZeroDivisionError else .ok (Int.fdiv a b)
+
+/-- `a % b`, `ZeroDivisionError` for `b = 0` -/
+def mod? (a b : Int) : Except PyExc Int :=
+  if b = 0 then .error PyExc.ZeroDivisionError else .ok (Int.fmod a b)
+
+/-- `l[i]`, `IndexError` when out of range -/
+def index? {α : Type} (l : List α) (i : Int) : Except PyExc α :=
+  if normIdx l i < 0 then .error PyExc.IndexError
+  else match l[(normIdx l i).toNat]? with
+    | some x => .ok x
+    | none => .error PyExc.IndexError
+
+/-- `yield y` in a generator of the raising mode: the generator is the list of everything it yields, or
+    the exception that ends it (the items yielded before the exception are not modelled) -/
+def yieldCons {α : Type} (y : α) (rest : Except PyExc (List α)) : Except PyExc (List α) :=
+  match rest with
+  | .ok l => .ok (y :: l)
+  | .error e => .error e
+
+/-! ## dicts: insertion-ordered association lists.  A Python dict is represented by a list of
+    (key, value) pairs in insertion order with pairwise different keys; the functions below do not need
+    that invariant to be total, the tie theorems state it where they need it (`Dict.WF`). -/
+
+abbrev Dict (κ ν : Type) := List (κ × ν)
+
+namespace Dict
+variable {κ ν : Type} [DecidableEq κ]
+
+/-- the value stored for `k` (first match), `none` when absent -/
+def find (d : Dict κ ν) (k : κ) : Option ν :=
+  match d with
+  | [] => none
+  | (k', v) :: r => if k' = k then some v else find r k
+
+/-- `d[k]`, `KeyError` when absent -/
+def get? (d : Dict κ ν) (k : κ) : Except PyExc ν :=
+  match find d k with
+  | some v => .ok v
+  | none => .error PyExc.KeyError
+
+/-- `d.get(k, dflt)` -/
+def getD (d : Dict κ ν) (k : κ) (dflt : ν) : ν := (find d k).getD dflt
+
+/-- `k in d` -/
+def contains (d : Dict κ ν) (k : κ) : Bool := (find d k).isSome
+
+/-- `d[k] = v`: the value is replaced in place when `k` is present (the key keeps its position),
+    otherwise the pair is appended -/
+def set (d : Dict κ ν) (k : κ) (v : ν) : Dict κ ν :=
+  match d with
+  | [] => [(k, v)]
+  | (k', v') :: r => if k' = k then (k', v) :: r else (k', v') :: set r k v
+
+/-- the dict without key `k` (all other pairs keep their order) -/
+def erase (d : Dict κ ν) (k : κ) : Dict κ ν := d.filter (fun p => !decide (p.1 = k))
+
+/-- `del d[k]`, `KeyError` when absent -/
+def del? (d : Dict κ ν) (k : κ) : Except PyExc (Dict κ ν) :=
+  if contains d k then .ok (erase d k) else .error PyExc.KeyError
+
+/-- `d.pop(k)`: (value, remaining dict), `KeyError` when absent -/
+def pop? (d : Dict κ ν) (k : κ) : Except PyExc (ν × Dict κ ν) :=
+  match find d k with
+  | some v => .ok (v, erase d k)
+  | none => .error PyExc.KeyError
+
+/-- `d.pop(k, dflt)` -/
+def popD (d : Dict κ ν) (k : κ) (dflt : ν) : ν × Dict κ ν :=
+  match find d k with
+  | some v => (v, erase d k)
+  | none => (dflt, d)
+
+/-- `d.popitem()`: the LAST item (LIFO) and the remaining dict, `KeyError` when empty -/
+def popitem? (d : Dict κ ν) : Except PyExc ((κ × ν) × Dict κ ν) :=
+  match d.getLast? with
+  | some p => .ok (p, d.dropLast)
+  | none => .error PyExc.KeyError
+
+/-- `d.setdefault(k, dflt)`: (the value now stored for `k`, the dict) -/
+def setdefault (d : Dict κ ν) (k : κ) (dflt : ν) : ν × Dict κ ν :=
+  match find d k with
+  | some v => (v, d)
+  | none => (dflt, d ++ [(k, dflt)])
+
+/-- `d.update(pairs)` / `dict(pairs)` / a dict comprehension: the pairs are stored one after the other -/
+def update (d : Dict κ ν) (pairs : List (κ × ν)) : Dict κ ν := pairs.foldl (fun d p => set d p.1 p.2) d
+
+def ofPairs (pairs : List (κ × ν)) : Dict κ ν := update [] pairs
+
+omit [DecidableEq κ] in
+/-- `list(d)` / `d.keys()` / iteration over `d` -/
+def keys (d : Dict κ ν) : List κ := d.map (·.1)
+
+omit [DecidableEq κ] in
+/-- `d.values()` -/
+def values (d : Dict κ ν) : List ν := d.map (·.2)
+
+omit [DecidableEq κ] in
+/-- `d.items()` -/
+def items (d : Dict κ ν) : List (κ × ν) := d
+
+omit [DecidableEq κ] in
+/-- `len(d)` -/
+def len (d : Dict κ ν) : Int := (d.length : Int)
+
+omit [DecidableEq κ] in
+/-- representation invariant of a Python dict: pairwise different keys -/
+def WF (d : Dict κ ν) : Prop := (d.map (·.1)).Nodup
+
+end Dict
+
+/-! ## sets of hashables: duplicate-free lists.  `Set` is a definition, not an abbreviation: generated code can
+    reach the elements only through the functions below, none of which depends on the order; iteration over a
+    set is not translated (Python does not specify its order). -/
+
+def Set (α : Type) : Type := List α
+
+namespace Set
+variable {α : Type}
+
+def empty : Set α := ([] : List α)
+instance : Inhabited (Set α) := ⟨empty⟩
+
+/-- the elements (for proofs and the self-test's codec; generated code never calls it) -/
+def toList (s : Set α) : List α := s
+
+/-- `len(s)` -/
+def len (s : Set α) : Int := (List.length (toList s) : Int)
+
+/-- `not s` -/
+def isEmpty (s : Set α) : Bool := List.isEmpty (toList s)
+
+variable [DecidableEq α]
+
+/-- `x in s` -/
+def contains (s : Set α) (x : α) : Bool := decide (x ∈ toList s)
+
+/-- `s.add(x)` -/
+def add (s : Set α) (x : α) : Set α := if x ∈ toList s then s else (toList s ++ [x] : List α)
+
+/-- `s.discard(x)` -/
+def discard (s : Set α) (x : α) : Set α := (List.filter (fun y => !decide (y = x)) (toList s) : List α)
+
+/-- `s.remove(x)`, `KeyError` when absent -/
+def remove? (s : Set α) (x : α) : Except PyExc (Set α) :=
+  if x ∈ toList s then .ok (discard s x) else .error PyExc.KeyError
+
+/-- `set(iterable)` -/
+def ofList (l : List α) : Set α := l.foldl (fun acc x => add acc x) empty
+
+end Set
 
 end PyRt
